@@ -184,6 +184,7 @@ class Fixture:
         self.parse = tabparser.parse_to_tree
         self.fcb = gen.format_config_blocks
         self.dev = vt.DEVICE_PRINTER[vendor]
+        self.dev_alt = vt.DEVICE_PRINTER_ALT.get(vendor, [])
         self.default_indent = "    " if self.family in ("juniper", "nokia") else "  "
 
 
@@ -227,9 +228,15 @@ def _device_side(fx, want):
                         % (d, got, want, _first_diff(want, got)))]
         # td == t, so join(td) is the text s of stage 1, whose parse and re-join are checked in stages 1-2: whenever
         # those hold, the parsed device config is a fixed point of join/parse.
+        for alt in fx.dev_alt:
+            d = alt(want)
+            got = env.tree_to_list(fx.parse(d, fx.fmt.split))
+            if got != want:
+                return 2, [("device-text-alt", "device-style text (empty blocks on one line, remarks after braces):\n%s\nparsed: %r\n"
+                            "expected: %r\n%s" % (d, got, want, _first_diff(want, got)))]
     except Exception as e:  # the property says these calls succeed on the domain
         return 1, [_exc("parse(device text)", e)]
-    return 1, []
+    return 1 + len(fx.dev_alt), []
 
 
 def _join_side(fx, forest, want):
